@@ -278,7 +278,7 @@ def scenarios(tier):
 def main(tier):
     rep = common.Report(PROP, tier)
     jobs = common.rotate(scenarios(tier))
-    deadline = time.time() + (170 if tier == 'quick' else 3000)
+    deadline = time.time() + (170 if tier == 'quick' else 1500)
     res = common.parallel_map(common.explore_job, jobs, deadline=deadline)
     rep.add_explore_results(jobs, res)
     rep.assumptions = [
